@@ -560,6 +560,43 @@ class AuxDel(AuxBase):
         return Exp("ok", value=None, owner=())
 
 
+@register
+class AuxAlias(AuxBase):
+    """{"op":"aux_alias","c":C1,"name":N1,"to":C2,"name2":N2}: the SAME AuxData object is put into
+    a second container (or under a second name): `c2.aux_data[n2] = c1.aux_data[n1]`. Whatever
+    is done through one entry is seen through the other; each save writes it wherever it is
+    listed; after a load the two entries are separate tables again."""
+
+    name = "aux_alias"
+
+    def labels(self, op):
+        return [(op["c"], ("ir", "mod")), (op["to"], ("ir", "mod"))]
+
+    def touched(self, w, op):
+        return [op["c"], op["to"]]
+
+    def ready(self, w, op):
+        return self._tbl(w, op) is not None and not (op["c"] == op["to"] and op["name"] == op["name2"])
+
+    def run(self, w, op):
+        def fn():
+            w.objs[op["to"]].aux_data[op["name2"]] = w.objs[op["c"]].aux_data[op["name"]]
+
+        out = capture(fn)
+        out.value = None
+        return out
+
+    def model(self, w, op, out):
+        w.m.nodes[op["to"]].a["aux"][op["name2"]] = w.m.nodes[op["c"]].a["aux"][op["name"]]  # the same table, not a copy
+        ref = w.aux_refs.get((op["c"], op["name"]))
+        if ref is not None:
+            w.aux_refs[(op["to"], op["name2"])] = ref
+        else:
+            w.aux_refs.pop((op["to"], op["name2"]), None)
+        w.counters["probe:aux_table_aliased"] += 1
+        return Exp("ok", value=None, owner=())
+
+
 # ---------------------------------------------------------------------------
 # generators
 
@@ -690,6 +727,9 @@ def gen_aux(w, r, allow_unknown=False):
         return {"op": "aux_new", "c": c, "name": name, "type": R.type_str(t), "cv": auxm.gen_value(w, r, t), "node_objects": r.random() < 0.7}
     name = sorted(tables)[r.randrange(len(tables))]
     tbl = tables[name]
+    if r.random() < w.cfg.get("p_aux_alias", 0.03) and tbl["state"] != "bad":
+        c2 = cs[r.randrange(len(cs))]
+        return {"op": "aux_alias", "c": c, "name": name, "to": c2, "name2": "t%d" % r.randrange(0, 8)}
     if x < 0.55:
         pre = _pre_read_change(w, r, c, name, tbl)
         if pre:
